@@ -189,6 +189,11 @@ Consume ==
               \* that follow are still judged
               ELSE IF r.res = "raises" /\ e.res = "ok"
                    THEN Soft(e, txt, {s.mode \o ".accepted-refusable"}, nxt)
+              \* a play on a COPY of the object changed the object itself: go on
+              \* with the specification's state (what the object offers as
+              \* playable afterwards is still judged)
+              ELSE IF e.res = "fork-changed-original"
+                   THEN Soft(e, txt, {s.mode \o ".fork-changed-original"}, nxt)
               ELSE Bad(e, txt)
         ELSE IF e.ev = "setdummy" THEN
            LET s1 == P!SetDummy(s, SetOf(e.hand))
